@@ -332,6 +332,28 @@ func runC02(c *Ctx) {
 		}
 		c.Check(n > 0 && bad == "", "O5", "MPT", funcKey(fn)+": shared ⇒ 0 whole GPUs", fn.Pos(), "IsSharedGPUAllocation ⇒ SetGPUs(0) before return", "a shared (fractional) allocation can be charged whole GPUs in the node's Used/Idle as well as through its group: "+bad)
 	}
+
+	// O6: a shared device counts as a host for a fractional request only through the full group test
+	if fit := c.Anchor("O6", pkgNodeInfo, "NodeInfo", "IsTaskFitOnGpuGroup"); fit != nil {
+		tf := fx.retFacts(fit, 0, WantTrue, 0)
+		d1, enough := hasFact(tf, func(f Fact) bool { return f.Pol && isCallNamed(f.T, "enoughResourcesOnGpu") })
+		_, notReleased := hasFact(tf, func(f Fact) bool { return !f.Pol && isCallNamed(f.T, "isAllGpuReleased") })
+		_, hasSharer := hasFact(tf, func(f Fact) bool {
+			return f.T.Op == "bin" && len(f.T.Args) == 2 && f.T.Args[0].Op == "lookup" && f.T.Args[0].Args[0].lastField() == "UsedSharedGPUsMemory" && f.T.Args[1].String() == "const:0" && ((f.T.Name == "!=" && f.Pol) || (f.T.Name == "==" && !f.Pol))
+		})
+		c.Check(enough && notReleased && hasSharer, "O6", "RET", funcKey(fit)+": true ⇒ the group has a sharer, room, and is not entirely releasing", fit.Pos(), trunc(d1, 80), "a gpu group can count as a host for a fractional request without one of: a current sharer, enough memory, not all sharers releasing (a fully releasing group is already accounted as a whole releasing device)")
+		if en := p.Func(pkgNodeInfo, "NodeInfo", "enoughResourcesOnGpu"); en != nil {
+			n := 0
+			for _, cs := range p.CallSites(en) {
+				if isTestdataOrMock(cs.Parent()) {
+					continue
+				}
+				n++
+				c.Check(sameFunc(rootFunc(cs.Parent()), fit), "O6", "CALLERS", funcKey(cs.Parent())+": uses the bare memory test enoughResourcesOnGpu", instrPos(cs), "only inside IsTaskFitOnGpuGroup", funcKey(cs.Parent())+" decides that a shared device can host a request with the bare memory test, without the 'has a sharer' and 'not entirely releasing' guards of IsTaskFitOnGpuGroup: a device whose sharers are all terminating is counted both as a whole releasing GPU and as a shared device with room")
+			}
+			c.Floor("O6", "CALLERS enoughResourcesOnGpu call sites", n, 1)
+		}
+	}
 }
 
 func appendedElem(v ssa.Value) ssa.Value {
